@@ -557,7 +557,8 @@ namespace svmon
               const std::vector<Ev, MallocAlloc<Ev> >& ev = REG ().events;
               for (size_t k = 0; k < ev.size (); ++k)
                 if (ev[k].addr == p0.addr (i) && ev[k].serial == p0.serials[i] && (ev[k].kind == EV_READ_FROM || ev[k].kind == EV_MOVED_FROM)) ++reads;
-              int allowed = (op.alias == static_cast<int> (i)) ? 1 + (op.kind == OP_INSERT_N || op.kind == OP_RESIZE_VAL ? 64 : 1) : 1;
+              // the aliased argument itself is legitimately copied once per new element (insert(pos,n,v[i]), resize(n,v[i])) plus its own relocation
+              int allowed = (op.alias == static_cast<int> (i)) ? 1 + (op.kind == OP_INSERT_N || op.kind == OP_RESIZE_VAL ? op.count : 1) : 1;
               if (reads > allowed)
               { violate ("C10", "realloc.element-relocated-twice", "pre-existing element %zu was copied/moved %d times during one growing call", i, reads); break; }
             }
